@@ -3,6 +3,7 @@ package ons
 import (
 	"bytes"
 	"encoding/json"
+	"math"
 	"math/big"
 
 	"github.com/tendermint/tendermint/libs/kv"
@@ -244,6 +245,11 @@ func runCreate(ctx *action.Context, tx action.RawTx) (bool, action.Response) {
 		}
 
 		// set expiry
+		if expiryOverflows(ctx.State.Version(), extend) {
+			return false, action.Response{
+				Log: codes.ErrFailedToCalculateExpiry.Wrap(errTooManyBlocks).Marshal(),
+			}
+		}
 		expiry = ctx.State.Version() + extend
 	}
 
@@ -284,7 +290,24 @@ func calculateExpiry(buyingPrice *balance.Amount, basePrice *balance.Amount, pri
 
 	remain := big.NewInt(0).Sub(buyingPrice.BigInt(), basePrice.BigInt())
 
-	return big.NewInt(0).Div(remain, pricePerBlock.BigInt()).Int64(), nil
+	return blocksBought(remain, pricePerBlock.BigInt())
+}
+
+var errTooManyBlocks = errors.New("payment buys more blocks than an expiry height can hold")
+
+// blocksBought is amount / pricePerBlock; a block count that does not fit an int64 is refused
+// instead of being truncated (a truncated count yields an expiry height in the past)
+func blocksBought(amount *big.Int, pricePerBlock *big.Int) (int64, error) {
+	blocks := big.NewInt(0).Div(amount, pricePerBlock)
+	if !blocks.IsInt64() {
+		return 0, errTooManyBlocks
+	}
+	return blocks.Int64(), nil
+}
+
+// expiryOverflows tells whether from + extend leaves the int64 range
+func expiryOverflows(from, extend int64) bool {
+	return from > 0 && extend > math.MaxInt64-from
 }
 
 func calculateRenewal(buyingPrice *balance.Amount, pricePerBlock *balance.Amount) (int64, error) {
@@ -293,7 +316,7 @@ func calculateRenewal(buyingPrice *balance.Amount, pricePerBlock *balance.Amount
 		return 0, errors.New("Buying price too less")
 	}
 
-	return big.NewInt(0).Div(buyingPrice.BigInt(), pricePerBlock.BigInt()).Int64(), nil
+	return blocksBought(buyingPrice.BigInt(), pricePerBlock.BigInt())
 }
 
 func verifyDomainName(name ons.Name, feeOpt *ons.Options) bool {
